@@ -976,14 +976,17 @@ pub fn check_c14(ix: &Ix<'_>, v: &mut Vec<Violation>) {
             if v5 && info.pid != pid {
                 viol(v, "C14", format!("C14/wrong-receipt/{role}"), format!("exactly-once send with id {pid} resolved with the PUBREC of id {}", info.pid), *sq);
             }
-            let rec = ix.sent.iter().find(|s| s.seq < *sq && matches!(&s.pkt, Some(Pkt::PubRec(a)) if a.pid == pid));
+            let rec = ix.sent.iter().find(|s| s.seq > wire.seq && s.seq < *sq && matches!(&s.pkt, Some(Pkt::PubRec(a)) if a.pid == pid));
             if rec.is_none() {
                 viol(v, "C14", format!("C14/receipt-without-pubrec/{role}"), format!("exactly-once send #{pid} resolved before the peer sent its PUBREC"), *sq);
             }
         }
         // the release / drop that follows in the same sender
         let rel = ix.ops.iter().find(|r| r.sender == o.sender && r.op == o.op + 1);
-        let pubrels: Vec<&EpP> = ix.eps.iter().filter(|e| e.conn == 0 && matches!(&e.pkt, Pkt::PubRel(a) if a.pid == pid)).collect();
+        // identifiers may be re-used once their exchange has finished: this exchange owns what is written
+        // between its PUBLISH and the next exactly-once PUBLISH with the same identifier
+        let next_same = ix.eps.iter().filter(|e| e.conn == 0 && e.seq > wire.seq && matches!(&e.pkt, Pkt::Publish(p) if p.qos == 2 && p.pid == Some(pid))).map(|e| e.seq).min().unwrap_or(u64::MAX);
+        let pubrels: Vec<&EpP> = ix.eps.iter().filter(|e| e.conn == 0 && e.seq > wire.seq && e.seq < next_same && matches!(&e.pkt, Pkt::PubRel(a) if a.pid == pid)).collect();
         if pubrels.len() > 1 {
             viol(v, "C14", format!("C14/pubrel-twice/{role}"), format!("{} PUBREL packets written for id {pid}", pubrels.len()), pubrels[1].seq);
         }
@@ -996,7 +999,7 @@ pub fn check_c14(ix: &Ix<'_>, v: &mut Vec<Violation>) {
             if let Some((sq, res)) = &r.done {
                 match res {
                     OpResult::Ok(info) if info.what == "pubcomp" => {
-                        let comp = ix.sent.iter().find(|s| s.seq < *sq && matches!(&s.pkt, Some(Pkt::PubComp(a)) if a.pid == pid));
+                        let comp = ix.sent.iter().find(|s| s.seq > wire.seq && s.seq < *sq && matches!(&s.pkt, Some(Pkt::PubComp(a)) if a.pid == pid));
                         if comp.is_none() {
                             viol(v, "C14", format!("C14/release-resolved-without-pubcomp/{role}"), format!("release of #{pid} resolved before the peer sent PUBCOMP #{pid}"), *sq);
                         }
